@@ -7,7 +7,6 @@ package main
 
 import (
 	"context"
-	"errors"
 	"fmt"
 	"io"
 	"net/http"
@@ -188,7 +187,8 @@ func setCase(hseed uint64) {
 	id := run.NewID()
 	rep := map[string]string{"op": "K", "hseed": fmt.Sprintf("%d", hseed)}
 	flavour := common.Pick(r, []string{"shared", "single"})
-	cache := newCache(flavour)
+	tc := &traceCache{inner: newCache(flavour)}
+	var cache auth.Cache = tc
 	hosts := []string{"reg0.test", "reg1.test:5000"}
 	keys := []string{"", "repository:a:pull", "repository:a:pull repository:b:push"}
 	n := 3 + r.Intn(8)
@@ -197,11 +197,12 @@ func setCase(hseed uint64) {
 		scheme    auth.Scheme
 		j         uint64
 		fail      bool
+		cancel    bool
 	}
 	calls := make([]call, n)
 	h0, k0 := common.Pick(r, hosts), common.Pick(r, keys)
 	for i := range calls {
-		calls[i] = call{host: h0, key: k0, scheme: auth.SchemeBearer, j: r.U64(), fail: r.Chance(1, 8)}
+		calls[i] = call{host: h0, key: k0, scheme: auth.SchemeBearer, j: r.U64(), fail: r.Chance(1, 8), cancel: r.Chance(1, 6)}
 		if r.Chance(1, 3) {
 			calls[i].host = common.Pick(r, hosts)
 		}
@@ -232,15 +233,23 @@ func setCase(hseed uint64) {
 			if !tight {
 				jitter(c.j)
 			}
-			tok, err := cache.Set(context.Background(), c.host, c.scheme, c.key, func(context.Context) (string, error) {
+			ctx, cancelCtx := context.WithCancel(context.Background())
+			defer cancelCtx()
+			if c.cancel {
+				go func() { jitter(c.j >> 11); jitter(c.j >> 17); cancelCtx() }()
+			}
+			tok, err := cache.Set(ctx, c.host, c.scheme, c.key, func(ctx context.Context) (string, error) {
 				mu.Lock()
 				fetched++
 				mu.Unlock()
 				if !tight {
 					jitter(c.j >> 7)
 				}
+				if ctx.Err() != nil {
+					return "", ctx.Err()
+				}
 				if c.fail {
-					return "", errors.New("fetch failed")
+					return "", fmt.Errorf("fetch %d failed", i)
 				}
 				return tokenOf(c, i), nil
 			})
@@ -253,14 +262,6 @@ func setCase(hseed uint64) {
 			want := fmt.Sprintf("tok|%s|%s|", c.host, c.key)
 			if !strings.HasPrefix(tok, want) {
 				sig := "set-cross-key"
-				if flavour == "single" && c.key == "" && strings.HasPrefix(tok, fmt.Sprintf("tok|%s|", c.host)) {
-					// known finding: the single-context cache keeps its host-only copy
-					// (key "") in the same concurrentCache as the scoped tokens, so a Set
-					// with the EMPTY key shares the in-flight entry (host, scheme, "") with
-					// the host-only follow-up Set of a concurrent call and receives that
-					// call's token (same host, other scopes)
-					sig = "single-cache-empty-key-coalesced"
-				}
 				mu.Lock()
 				fails = append(fails, violation{sig, fmt.Sprintf("%s cache: Set(%q, Bearer, %q) returned %q, a token fetched for another host or scope set", flavour, c.host, c.key, tok)})
 				mu.Unlock()
@@ -272,6 +273,7 @@ func setCase(hseed uint64) {
 		run.OracleFail(id, "set-hang", "concurrentCache.Set did not return within 20s", rep)
 		return
 	}
+	setTraceCase(tc, "set-"+flavour)
 	run.Evaluations++
 	run.Count("set/" + flavour)
 	run.Count(fmt.Sprintf("set/fetches-saved=%d", min(n-fetched, 9)))
@@ -308,7 +310,13 @@ func mixCase(hseed uint64) {
 	w.cur = nil
 	w.alwaysScope = true
 	w.gate = func(string) { time.Sleep(200 * time.Microsecond) }
-	client := &auth.Client{Client: &http.Client{Transport: w}, Cache: newCache(flavour), Credential: w.credentialFunc(), ForceAttemptOAuth2: oauth2}
+	var tc *traceCache
+	var cache auth.Cache
+	if flavour != "none" {
+		tc = &traceCache{inner: newCache(flavour)}
+		cache = tc
+	}
+	client := &auth.Client{Client: &http.Client{Transport: w}, Cache: cache, Credential: w.credentialFunc(), ForceAttemptOAuth2: oauth2}
 	n := 4 + r.Intn(12)
 	type job struct {
 		g            *regState
@@ -348,6 +356,7 @@ func mixCase(hseed uint64) {
 		run.OracleFail(id, "do-hang", "concurrent Client.Do calls did not return within 30s", rep)
 		return
 	}
+	setTraceCase(tc, "mix-"+flavour)
 	w.mu.Lock()
 	defer w.mu.Unlock()
 	run.Evaluations++
